@@ -220,7 +220,25 @@ func mutateJSON(rt *rapid.T, valid []byte) ([]byte, string) {
 		desc = "top-level-non-object"
 	} else {
 		n := nodes[rapid.IntRange(0, len(nodes)-1).Draw(rt, "node")]
-		switch rapid.IntRange(0, 13).Draw(rt, "jmut") {
+		switch rapid.IntRange(0, 15).Draw(rt, "jmut") {
+		case 14, 15:
+			// a structure loses one of its elements (the last one half of the time): what a typed reader expects next is not there
+			var structs []map[string]any
+			for _, x := range nodes {
+				if arr, ok := x["value"].([]any); ok && len(arr) > 0 {
+					structs = append(structs, x)
+				}
+			}
+			if len(structs) > 0 {
+				x := structs[rapid.IntRange(0, len(structs)-1).Draw(rt, "dropfrom")]
+				arr := x["value"].([]any)
+				k := len(arr) - 1
+				if rapid.Bool().Draw(rt, "dropany") {
+					k = rapid.IntRange(0, len(arr)-1).Draw(rt, "dropidx")
+				}
+				x["value"] = append(append([]any{}, arr[:k]...), arr[k+1:]...)
+			}
+			desc = "element-dropped"
 		case 12, 13:
 			// a scalar (Booleans first) written in another lexical form that some parser along the way may accept:
 			// strings where JSON has literals or numbers, other spellings, numbers where strings are expected
